@@ -206,6 +206,74 @@ let run_spec_case (line : string) : string =
        | SNoSpec -> "NOSPEC")
   | _ -> failwith "bad spec case"
 
+(* ---- AST case language:  program := PR k (nlocals body)*k body ; body := B k node*k ;
+   node := O n op*n | I body body | R n body | W body | E p | CL p | DX | DCL ---- *)
+let rec parse_body (t : toks) : node list =
+  if next t <> "B" then failwith "expected B";
+  let k = int_of_string (next t) in
+  List.init k (fun _ -> parse_node t)
+and parse_node (t : toks) : node =
+  match next t with
+  | "O" -> let n = int_of_string (next t) in NOps (List.init n (fun _ -> parse_op [||] (next t)))
+  | "I" -> let a = parse_body t in let b = parse_body t in NIf (a, b)
+  | "R" -> let n = int_of_string (next t) in NRepeat (nat_of_int n, parse_body t)
+  | "W" -> NWhile (parse_body t)
+  | "E" -> NExec (nat_of_int (int_of_string (next t)))
+  | "CL" -> NCall (nat_of_int (int_of_string (next t)))
+  | "DX" -> NDynExec
+  | "DCL" -> NDynCall
+  | x -> failwith ("unknown node token " ^ x)
+
+let parse_ast (t : toks) =
+  if next t <> "PR" then failwith "expected PR";
+  let k = int_of_string (next t) in
+  let procs = List.init k (fun _ -> let nl = z_of_string (next t) in let b = parse_body t in (nl, b)) in
+  let main = parse_body t in
+  (procs, main)
+
+let rec dump_block (b : block) : string =
+  match b with
+  | BSpan ops -> Printf.sprintf "S %d %s " (List.length ops) (String.concat " " (List.map op_name ops))
+  | BJoin (x, y) -> "J " ^ dump_block x ^ dump_block y
+  | BSplit (x, y) -> "P " ^ dump_block x ^ dump_block y
+  | BLoop x -> "L " ^ dump_block x
+  | BCall h ->
+      if List.for_all2 Big_int_Z.eq_big_int h dYN_HASH then "DC "
+      else "CH " ^ String.concat " " (List.map s_of_z h) ^ " "
+  | BSysCall h -> "YH " ^ String.concat " " (List.map s_of_z h) ^ " "
+  | BDyn -> "D "
+
+(* case: <ast>  ->  OK <mast> # hash *)
+let run_lower (line : string) : string =
+  let t = { v = Array.of_list (split_ws line); i = 0 } in
+  let procs, main = parse_ast t in
+  let root, _ = compile_program procs main in
+  "OK " ^ dump_block root ^ "# " ^ String.concat "," (List.map s_of_z (block_hash root))
+
+(* case: <max> | <stack> | <adv> | <ast> *)
+let run_astexec (line : string) : string =
+  match String.split_on_char '|' line with
+  | [maxs; stacks; advs; asts] ->
+      let maxc = z_of_string (String.trim maxs) in
+      let t = { v = Array.of_list (split_ws asts); i = 0 } in
+      let procs, main = parse_ast t in
+      let root, codes = compile_program procs main in
+      let table = List.map (fun b -> (block_hash b, b)) codes in
+      let prog = { p_root = root; p_kernel = []; p_table = table } in
+      let stack = List.map z_of_string (split_ws stacks) in
+      let adv = List.map z_of_string (split_ws advs) in
+      let fuel =
+        let m = try Big_int_Z.int_of_big_int maxc with _ -> max_int in
+        nat_of_int (min (2 * m + 4) fuel_cap) in
+      (match exec_program fuel maxc prog stack adv with
+       | Ok s ->
+           Printf.sprintf "OK clk=%s fmp=%s ctx=%s stack=%s adv=%d mem=%s"
+             (s_of_z s.clk) (s_of_z s.fmp) (s_of_z s.ctx)
+             (String.concat "," (List.map s_of_z s.stk))
+             (List.length s.adv) (mem_dump s.mem)
+       | Err (e, s) -> Printf.sprintf "ERR %s clk=%s" (err_string e) (s_of_z s.clk))
+  | _ -> failwith "bad astexec case"
+
 let () =
   let family = Sys.argv.(1) in
   let ic = open_in Sys.argv.(2) in
@@ -219,6 +287,8 @@ let () =
               | "exec" -> run_exec line
               | "options" -> run_options line
               | "spec" -> run_spec_case line
+              | "lower" -> run_lower line
+              | "astexec" -> run_astexec line
               | _ -> failwith "unknown family")
            with Failure m -> "DRIVER-FAIL " ^ m
               | Stack_overflow -> "DRIVER-FAIL stack overflow" in
